@@ -1,3 +1,3 @@
 #!/bin/sh
 # Development aid: run the quick checks on every seeded change stored under /verif/seeded (4 at a time) and report whether the seed's own property catches it.
-ls -d /verif/seeded/C*-* | xargs -P 12 -I{} sh -c 's=$(basename {}); p=${s%%-*}; out=$(/verif/tools/try_seed.sh {}/patch.diff quick 2>&1); d=$(echo "$out" | grep -E "DETECTED-BY|does not apply"); case "$d" in *"$p("*) r=OWN;; *none*) r=MISSED;; *"does not apply"*) r=NOAPPLY;; *) r=NEIGHBOUR;; esac; echo "$s $r $d"' | sort
+ls -d /verif/seeded/C*-* | xargs -P 14 -I{} sh -c 's=$(basename {}); p=${s%%-*}; out=$(/verif/tools/try_seed.sh {}/patch.diff quick 2>&1); d=$(echo "$out" | grep -E "DETECTED-BY|does not apply"); case "$d" in *"$p("*) r=OWN;; *none*) r=MISSED;; *"does not apply"*) r=NOAPPLY;; *) r=NEIGHBOUR;; esac; echo "$s $r $d"' | sort
